@@ -39,7 +39,8 @@ def r12_1(ctx, R):
             recv = strip_refs(fl.operand_expr(t["args"][0]))
             if any(re.search(r"Option::<.*>::as_pin_mut$", c[1] or "") for c in expr_calls(recv)):
                 continue  # adapter upstream
-            if b.path.startswith("<futures_ordered_bounded::OrderWrapper"):
+            from roles import order_wrapper_path
+            if b.path.startswith("<%s<" % (order_wrapper_path(ctx.facts) or "?")):
                 continue  # wrapper forwards the poll it received itself
             n += 1
             ctx.ob("R12.1", b, "child-poll-only-in-drain@%s" % _site_label(b, bb), b.path in drains, b.loc(bb))
